@@ -5,7 +5,7 @@ which document an evaluation scope is built from, how per-evaluation statuses fo
 records are sorted into the report's sets. Callees are modelled by symbolic results; value identity (the same
 opaque value reaching two places) is tracked by the executor.
 """
-import re
+import json, re
 import mirsmt, mirexec
 from mirsmt import Untranslatable, pc_term
 from miragg import calls, ret_ok_status
@@ -724,6 +724,208 @@ def test_get_by_result(a):
         c["replay"] = replay_test_cmd(a)
         c["reproduced"] = c["replay"].get("reproduced", False)
         a.candidates.append(c)
+
+
+def test_structured_evaluate(a):
+    """`cfn-guard test -o json|yaml|junit`: StructuredTestReporter::evaluate - every test case is evaluated once, in a
+    scope of its own built from the rules file and that case's input (nothing carried over from an earlier case)"""
+    TD = struct_fields(a.src, "commands/reporters/test/structured.rs", "TestData")
+    CR = struct_fields(a.src, "commands/reporters/test/structured.rs", "ContextAwareRule")
+    ST = struct_fields(a.src, "commands/reporters/test/structured.rs", "StructuredTestReporter")
+
+    def m_gbr(ex, argv):
+        v = ex.opq()
+        ex.side.append(f"(<= {ex.len_of(v)} 1)")
+        return v
+
+    def m_gsr(ex, argv):
+        return ("tuple", [ex.fresh_enum("Option", 2, "matched", {"Some": ex.fresh_status("mst")}), ex.opq()])
+    ex = a.exec(r"(?:reporters::test::)?structured::<impl at guard/src/commands/reporters/test/structured\.rs:\d+:\d+: \d+:\d+>::evaluate",
+                {"iterate_over": lambda ex, av: ex.opq(), "next": mirexec.m_iter_next, "into_iter": mirexec.m_new_iter, "iter": mirexec.m_new_iter,
+                 "get_test_data": m_result_opq, "root_scope": m_scope, "eval_rules_file": mirexec.m_result_status, RC_NEW: mirexec.m_identity,
+                 "clone": mirexec.m_identity, "reset_recorder": lambda ex, av: ex.opq(), "extract": lambda ex, av: ex.opq(),
+                 "get_by_rules": m_gbr, "get": mirexec.m_option, "try_from": m_result_opq, "get_status_result": m_gsr,
+                 "to_owned": mirexec.m_identity, "to_string": mirexec.m_identity, "as_str": mirexec.m_identity,
+                 "now": lambda ex, av: ex.opq(), "elapsed": lambda ex, av: ex.opq(), "as_millis": lambda ex, av: ex.havoc("u128"),
+                 "default": lambda ex, av: ex.opq(), "insert_test_case": lambda ex, av: ("unit",)},
+                log=("push", "reset_root", "*scope*"), unroll=2, max_paths=120000)
+    a.fns.append("commands::reporters::test::structured::StructuredTestReporter::evaluate")
+    me = ex.arg_env["_1"]
+    car = field(ex, me, ST.index("rules"), "ContextAwareRule")
+    rule = field(ex, car, CR.index("rule"), "RulesFile")
+    bad, ncase = [], 0
+    for p in ex.paths:
+        r = p.ret
+        if p.outcome != "return" or not r or r[0] != "enum" or r[1] != "Result":
+            bad.append(pc_term(p.pc))
+            continue
+        gtd = calls(p, "get_test_data")
+        evs = calls(p, "eval_rules_file")
+        # the inner loops: one per Ok(spec) - iterate over that spec's test data
+        docs = []
+        for g in gtd:
+            if g[3][0] != "enum":
+                continue
+            vec = g[3][3]["Ok"]
+            for k, el, tag, i0 in iterations(ex, p, it_filter=lambda ev, vec=vec: ex.iter_src.get(ev[2][0][1], ev[2][0]) == vec):
+                if el is not None and f"(= {tag} 1)" in p.pc:
+                    docs.append((i0, field(ex, el, TD.index("path_value"), "Rc")))
+        docs.sort(key=lambda t: t[0])
+        ncase += len(evs)
+        probs = []
+        # every entered test case is evaluated, unless the run ended in an error first
+        if len(evs) > len(docs) or (len(evs) < len(docs) - 1):
+            probs.append("number of evaluations differs from the number of test cases visited")
+        probs += pair_wiring(ex, p, lambda i: rule, lambda i: docs[i][1] if i < len(docs) else None, lambda i: None)
+        callee_err = "(or false " + " ".join(f"(= {e[3][2]} 1)" for e in gtd + evs if e[3][0] == "enum") + ")"
+        short = "true" if len(evs) == len(docs) else f"(= {r[2]} 1)"      # one case fewer only when that case's evaluation errored out
+        good = f"(and {short} (=> (= {r[2]} 1) {callee_err}))"
+        bad.append(f"(and {pc_term(p.pc)} (not {'false' if probs else good}))")
+    # ---- per rule of a case: which list it is recorded in (C16) ------------------------------------------------
+    def from_elem(v, el):
+        if v is None or el is None or v[0] != "opaque" or el[0] != "opaque":
+            return False
+        seen, todo = set(), [v[1]]
+        while todo:
+            x = todo.pop()
+            if x == el[1]:
+                return True
+            if x in seen:
+                continue
+            seen.add(x)
+            todo += [b for (b, _k), val in ex.proj.items() if val[0] == "opaque" and val[1] == x]
+        return False
+    bad2, nrule = [], 0
+    for p in ex.paths:
+        r = p.ret
+        if p.outcome != "return" or not r or r[0] != "enum" or r[1] != "Result":
+            continue
+        gbrs = calls(p, "get_by_rules")
+        parts = []
+        case_els = []
+        for gt in calls(p, "get_test_data"):
+            if gt[3][0] == "enum":
+                vec = gt[3][3]["Ok"]
+                case_els += [(i0, el) for k, el, tag, i0 in iterations(ex, p, it_filter=lambda ev, vec=vec: ex.iter_src.get(ev[2][0][1], ev[2][0]) == vec)
+                             if f"(= {tag} 1)" in p.pc]
+        for g in gbrs:
+            gi = p.events.index(g)
+            cur = [el for i0, el in sorted(case_els, key=lambda t: t[0]) if i0 < gi]
+            case_el = cur[-1] if cur else None
+            its = iterations(ex, p, it_filter=lambda ev, g=g: ex.iter_src.get(ev[2][0][1], ev[2][0]) == g[3])
+            idx = [i for _k, _e, _t, i in its]
+            for n, (k, el, tag, i0) in enumerate(its):
+                if f"(= {tag} 1)" not in p.pc:
+                    continue
+                end = idx[n + 1] if n + 1 < len(idx) else len(p.events)
+                seg = [e for i, e in enumerate(p.events) if i0 < i < end and e[0] == "call"]
+                gets = [e for e in seg if e[1] == "get"]
+                tfs = [e for e in seg if e[1] == "try_from"]
+                gsrs = [e for e in seg if e[1] == "get_status_result"]
+                pushes = [e for e in seg if e[1] == "push"]
+                nrule += 1
+                if len(gets) != 1 or not from_elem(gets[0][2][1], el) or not from_elem(gets[0][2][0], case_el):
+                    parts.append("false")
+                    continue
+                key = gets[0][2][1]
+                has = f"(= {gets[0][3][2]} 1)"
+
+                def pushed(kind):
+                    return (len(pushes) == 1 and pushes[0][2][1][0] == "struct" and pushes[0][2][1][1] == kind
+                            and same(pushes[0][2][1][2].get("name"), key))
+                if not tfs:
+                    parts.append(f"(not {has})" if pushed("SkippedRule") else "false")
+                    continue
+                exp_ok = f"(= {tfs[0][3][2]} 0)"
+                if not gsrs:
+                    # the expectation text is not a status: the run is reported as an error, nothing is recorded for the rule
+                    parts.append(f"(and {has} (not {exp_ok}))" if not pushes else "false")
+                    continue
+                gs = gsrs[0]
+                wired = same(gs[2][0], tfs[0][3][3]["Ok"]) and from_elem(gs[2][1], el) and same(tfs[0][2][0], gets[0][3][3]["Some"])
+                if not wired or gs[3][0] != "tuple":
+                    parts.append("false")
+                    continue
+                m = gs[3][1][0]
+                if pushed("PassedRule"):
+                    ok = same(pushes[0][2][1][2].get("evaluated"), m[3]["Some"])
+                    parts.append(f"(and {has} {exp_ok} (= {m[2]} 1))" if ok else "false")
+                elif pushed("FailedRule"):
+                    ok = same(pushes[0][2][1][2].get("expected"), tfs[0][3][3]["Ok"]) and same(pushes[0][2][1][2].get("evaluated"), gs[3][1][1])
+                    parts.append(f"(and {has} {exp_ok} (= {m[2]} 0))" if ok else "false")
+                else:
+                    parts.append("false")
+        if parts:
+            bad2.append(f"(and {pc_term(p.pc)} (not (and true {' '.join(parts)})))")
+    c2 = a.discharge("test/structured/expectations", ex, bad2,
+                     f"StructuredTestReporter::evaluate ({nrule} rule visits): a rule of a test case is looked up in THAT case's expectations "
+                     "by its own name; without an expectation it is pushed to skipped_rules only; with one, get_status_result(expected, "
+                     "this rule's records) decides: Some(status) => passed_rules with that status, None => failed_rules with the "
+                     "expected status and the evaluated statuses; an unparsable expectation records nothing", witness=False)
+    if c2:
+        c2["replay"] = replay_test_structured(a)
+        c2["reproduced"] = c2["replay"].get("reproduced", False)
+        a.candidates.append(c2)
+    c = a.discharge("test/structured/fresh-scope-per-case", ex, bad,
+                    f"StructuredTestReporter::evaluate, <= 2 test files x <= 2 test cases x <= 1 rule name ({ncase} case evaluations): every "
+                    "test case is evaluated exactly once, by eval_rules_file on the reporter's rules file, in a scope that root_scope built "
+                    "for this case from that rules file and this case's input and that no other case uses; Err only from a callee")
+    if c:
+        c["replay"] = replay_test_structured(a)
+        c["reproduced"] = c["replay"].get("reproduced", False)
+        a.candidates.append(c)
+
+
+def replay_test_structured(a):
+    """`cfn-guard test -o json` on two test cases in which a named rule referenced by another rule has different statuses,
+    in both orders: every case's passed/failed lists equal those of the case alone in its file; exit 0"""
+    import os, shutil, subprocess, tempfile, json as _json
+    exe = a.cli()
+    if not exe:
+        return {"reproduced": False, "note": "native build failed"}
+    rules = "rule base {\n  a == 1\n}\nrule dep when base {\n  b == 1\n}\nrule neg when !base {\n  b == 2\n}\n"
+    cases = {"x": ("a: 1\n    b: 1", {"base": "PASS", "dep": "PASS", "neg": "SKIP"}),
+             "y": ("a: 2\n    b: 2", {"base": "FAIL", "dep": "SKIP", "neg": "PASS"}),
+             "z": ("a: 1\n    b: 2", {"base": "PASS", "dep": "FAIL", "neg": "SKIP"})}
+
+    def text(names):
+        out = ""
+        for n in names:
+            inp, exp = cases[n]
+            out += f"- name: {n}\n  input:\n    {inp}\n  expectations:\n    rules:\n" + "".join(f"      {k}: {v}\n" for k, v in exp.items())
+        return out
+    d = tempfile.mkdtemp(prefix="cfnverif_replay_")
+    env = dict(os.environ)
+    env["RUST_BACKTRACE"] = "0"
+    try:
+        open(os.path.join(d, "r.guard"), "w").write(rules)
+        tried = []
+        for fmt in ("json", "junit"):
+            for order in (["x"], ["y"], ["z"], ["x", "y"], ["y", "x"], ["z", "y"], ["y", "z"], ["x", "y", "z"], ["y", "z", "x"]):
+                open(os.path.join(d, "t.yaml"), "w").write(text(order))
+                pr = subprocess.run([exe, "test", "-r", os.path.join(d, "r.guard"), "-t", os.path.join(d, "t.yaml"), "-o", fmt],
+                                    capture_output=True, text=True, env=env, timeout=60)
+                ok = pr.returncode == 0
+                detail = None
+                if fmt == "json":
+                    try:
+                        rep = _json.loads(pr.stdout)
+                        rep = rep[0] if isinstance(rep, list) else rep
+                        tcs = rep.get("Ok", rep).get("test_cases", [])
+                        ok = ok and len(tcs) == len(order) and all(not t.get("failed_rules") and len(t.get("passed_rules", [])) == 3 for t in tcs)
+                        detail = tcs
+                    except Exception as e:
+                        ok, detail = False, f"unparsable output: {e}: {pr.stdout[:200]}"
+                else:
+                    ok = ok and "<failure" not in pr.stdout and "<error" not in pr.stdout
+                tried.append({"fmt": fmt, "order": order, "ok": ok, "exit": pr.returncode})
+                if not ok:
+                    return {"reproduced": True, "rules_file": rules, "test_file": text(order), "cmd": f"cfn-guard test -r r.guard -t t.yaml -o {fmt}",
+                            "expected": "exit 0 and every expectation met (each case alone meets them)", "exit": pr.returncode,
+                            "observed": detail if detail is not None else pr.stdout[:600]}
+        return {"reproduced": False, "tried": tried}
+    finally:
+        shutil.rmtree(d, ignore_errors=True)
 
 
 def test_get_by_rules(a):
@@ -1730,6 +1932,75 @@ def report_rule_listing(a):
             parts.append(f"(=> (and {isrule} (not (= {st[2]} {a.F}))) {'true' if not evs else 'false'})")
         good = "(and true " + " ".join(parts) + ")"
         bad.append(f"(and {pc_term(p.pc)} (not {good}))")
+    # ---- nothing is listed for a record that did not FAIL ------------------------------------------------------
+    BC = struct_fields(a.src, "rules/mod.rs", "BlockCheck")
+    TBC = struct_fields(a.src, "rules/mod.rs", "TypeBlockCheck")
+    CC = enum_variants(a.src, "rules/mod.rs", "ClauseCheck")
+    VC = struct_fields(a.src, "rules/mod.rs", "ValueCheck")
+    UVC = struct_fields(a.src, "rules/mod.rs", "UnaryValueCheck")
+    CCC = struct_fields(a.src, "rules/mod.rs", "ComparisonClauseCheck")
+    ICC = struct_fields(a.src, "rules/mod.rs", "InComparisonCheck")
+
+    def status_of(some):
+        """[(condition 'this record is of kind K', status discriminant term)] for every status-carrying kind of record"""
+        out = []
+        for v in ("FileCheck", "RuleCheck"):
+            if v in RT:
+                out.append((f"(= {disc(ex, some)} {RT.index(v)})", field(ex, payload(ex, some, v), NS.index("status"), "rules::Status")[2]))
+        for v in ("BlockGuardCheck", "Disjunction", "GuardClauseBlockCheck", "WhenCheck"):
+            if v in RT:
+                out.append((f"(= {disc(ex, some)} {RT.index(v)})", field(ex, payload(ex, some, v), BC.index("status"), "rules::Status")[2]))
+        for v in ("TypeBlock", "RuleCondition", "TypeCondition", "Filter", "WhenCondition"):
+            if v in RT:
+                out.append((f"(= {disc(ex, some)} {RT.index(v)})", disc(ex, payload(ex, some, v))))
+        if "TypeCheck" in RT:
+            blk = field(ex, payload(ex, some, "TypeCheck"), TBC.index("block"), "BlockCheck")
+            out.append((f"(= {disc(ex, some)} {RT.index('TypeCheck')})", field(ex, blk, BC.index("status"), "rules::Status")[2]))
+        if "ClauseValueCheck" in RT:
+            cl = payload(ex, some, "ClauseValueCheck")
+            isc = f"(= {disc(ex, some)} {RT.index('ClauseValueCheck')})"
+            out.append((f"(and {isc} (= {disc(ex, cl)} {CC.index('Success')}))", None))
+            un = field(ex, payload(ex, cl, "Unary"), UVC.index("value"), "ValueCheck")
+            out.append((f"(and {isc} (= {disc(ex, cl)} {CC.index('Unary')}))", field(ex, un, VC.index("status"), "rules::Status")[2]))
+            out.append((f"(and {isc} (= {disc(ex, cl)} {CC.index('Comparison')}))",
+                        field(ex, payload(ex, cl, "Comparison"), CCC.index("status"), "rules::Status")[2]))
+            out.append((f"(and {isc} (= {disc(ex, cl)} {CC.index('InComparison')}))",
+                        field(ex, payload(ex, cl, "InComparison"), ICC.index("status"), "rules::Status")[2]))
+        return out
+    bad3, nrec = [], 0
+    for p in ex.paths:
+        if p.outcome != "return":
+            continue
+        its = iterations(ex, p, it_filter=lambda ev: ex.iter_src.get(ev[2][0][1], ev[2][0]) == ex.arg_env["_1"])
+        it_idx = {i: k for k, _el, _t, i in its}
+        cur, per = None, {}
+        for i, e in enumerate(p.events):
+            if i in it_idx:
+                cur = it_idx[i]
+            if e[0] == "call" and e[1] in ("push", "extend") and e[2] and e[2][0] == p.ret:
+                per.setdefault(cur, []).append(e)
+        parts = []
+        for k, el, tag, _i in its:
+            if not per.get(k):
+                continue
+            nrec += 1
+            cont = field(ex, el, ER.index("container"), "Option")
+            some = payload(ex, cont, "Some")
+            # something was listed for this record: it must not be a record that carries a status other than FAIL
+            for cond, st in status_of(some):
+                notfail = "true" if st is None else f"(not (= {st} {a.F}))"
+                parts.append(f"(not (and (= {disc(ex, cont)} 1) {cond} {notfail}))")
+        if parts:
+            bad3.append(f"(and {pc_term(p.pc)} (not (and true {' '.join(parts)})))")
+    c3 = a.discharge("report_all_failed_clauses_for_rules/only-fail-listed", ex, bad3,
+                     f"report builder over one record ({nrec} listing record visits): whenever anything is listed for a record (a clause "
+                     "report pushed, or the reports of its children appended), that record is not one whose own status is PASS or SKIP - "
+                     "for every status-carrying record kind (file, rule, conditions, type / when / block / disjunction / clause-block "
+                     "checks, unary / comparison / in-comparison clause checks) and not a `Success` clause", witness=False)
+    if c3:
+        c3["replay"] = replay_only_fail_listed(a)
+        c3["reproduced"] = c3["replay"].get("reproduced", False)
+        a.candidates.append(c3)
     c = a.discharge("report_all_failed_clauses_for_rules/rule-listing", ex, bad,
                     "report builder over one record (children's reports modelled as an arbitrary list, possibly empty): a RuleCheck "
                     "record with status FAIL always yields exactly one Rule entry carrying that rule's name - also when no individual "
@@ -1738,6 +2009,40 @@ def report_rule_listing(a):
         c["replay"] = replay_fail_rule_listed(a)
         c["reproduced"] = c["replay"].get("reproduced", False)
         a.candidates.append(c)
+
+
+def replay_only_fail_listed(a):
+    """a FAIL rule that also contains clauses / blocks that are PASS or SKIP (among them an empty cached variable used as a
+    block, a skipped when block, a passing disjunction): exactly the failing clause is listed under the rule"""
+    exe = a.cli()
+    if not exe:
+        return {"reproduced": False, "note": "native build failed"}
+    data = '{"Resources": {"q": {"Type": "AWS::SQS::Queue", "Properties": {"x": 1}}},\n "a": 1, "L": [ {"x": 1} ]}\n'
+    extras = {
+        "empty-variable-block": ("let none = Resources.*[ Type == 'AWS::S3::Bucket' ]\nrule pre when %none !empty {\n  a == 1\n}\n", "  %none {\n    Properties exists\n  }\n"),
+        "skipped-when": ("", "  when a == 2 {\n    a == 3\n  }\n"),
+        "passing-or": ("", "  a == 1 or a == 5\n"),
+        "passing-block": ("", "  Resources.* {\n    Properties.x == 1\n  }\n"),
+        "skipped-filter-block": ("", "  L[ x == 9 ] {\n    y exists\n  }\n"),
+        "passing-type-block": ("", "  AWS::SQS::Queue {\n    Properties.x == 1\n  }\n"),
+    }
+    out, tried = [], []
+    for label, (pre, extra) in extras.items():
+        for first in (True, False):
+            fail = "  a == 2 <<the one failing check>>\n"
+            rules = pre + "rule r {\n" + (fail + extra if first else extra + fail) + "}\n"
+            rc, rep, err = a.run_structured(exe, rules, [data])
+            if not (rep and isinstance(rep, list) and rep):
+                out.append({"case": label, "problem": "no report", "exit": rc, "stderr": err})
+                continue
+            ncs = [x for x in rep[0].get("not_compliant", []) if "Rule" in x and x["Rule"].get("name") == "r"]
+            checks = ncs[0]["Rule"].get("checks", []) if ncs else None
+            ok = rc == 19 and checks is not None and len(checks) == 1 and "the one failing check" in json.dumps(checks[0])
+            tried.append({"case": label, "failing_first": first, "ok": ok})
+            if not ok:
+                out.append({"case": label, "rules_file": rules, "exit": rc, "listed_checks": checks})
+    real = [o for o in out if "problem" not in o]
+    return {"reproduced": bool(real), "mismatches": out[:3], "data": data, "tried": tried}
 
 
 def replay_fail_rule_listed(a):
@@ -1770,8 +2075,8 @@ def replay_fail_rule_listed(a):
 
 SITES = {
     "C06": [structured_report, structured_parse_closure, junit_exit_code, junit_test_case, junit_report, validate_execute_step, test_generic_report],
-    "C12": [structured_report, junit_test_case, data_input_wiring, data_input_params_wiring, structured_merge_closure, test_get_by_result],
-    "C16": [test_generic_report, test_get_by_result, test_get_by_rules],
+    "C12": [structured_report, junit_test_case, data_input_wiring, data_input_params_wiring, structured_merge_closure, test_get_by_result, test_structured_evaluate],
+    "C16": [test_generic_report, test_get_by_result, test_get_by_rules, test_structured_evaluate],
     "C09": [report_partition, report_rule_listing],
     "C15": [scope_resolution, param_rule_call, param_ctx_resolve],
     "C04": [rule_status_semantics],
